@@ -57,13 +57,16 @@ def run(tier, seed):
             pairs = list(itertools.combinations(list(faults), 2))
             rng.shuffle(pairs)
             for n1, n2 in pairs[:80]:
-                s = regsim.RScn(fmt, rng.choice(kinds), rng.choice(akinds))
-                faults[n1](s, rng)
-                faults[n2](s, rng)
+                kind = rng.choice(kinds)
+                if any(regcat.NEEDS_FAMILY.get(n) == "ec" for n in (n1, n2)) and authsim.KINDS[kind][0] != "ec":
+                    kind = "ES256-P256"
+                s = regsim.RScn(fmt, kind, rng.choice(akinds))
                 try:
+                    faults[n1](s, rng)
+                    faults[n2](s, rng)
                     pd, reg = regsim.build(s)
                 except Exception:
-                    continue
+                    continue            # the two knobs cannot be combined (e.g. an ECC fault on a key replaced by an RSA one)
                 B.run_case(regrun.policy_of(pd), reg, "dict", "reject", f"{n1}+{n2}/{fmt}", scn=s)
     B.close()
     chk.notes.append({"oracle_queries": B.O.counts})
